@@ -166,7 +166,6 @@ Qed.
 (* ---- 1. a fault inside an operation is reported ------------------------------------------- *)
 Definition fault_post (c : pcfg) (o : pop) (sr : pg * pres) : Prop :=
   o = PAbort \/
-  tr_fetch_fault c o (rev (s_log (p_srv (fst sr)))) = true \/
   has_fault (rev (s_log (p_srv (fst sr)))) = false \/
   is_perr (snd sr) = true.
 
@@ -176,7 +175,7 @@ Proof.
   destruct st as [tx multi [comm open next closed log orc]].
   remember (fault_post c) as P eqn:HP.
   destruct o; unfold_pg.
-  all: brk; subst P; unfold fault_post, tr_fetch_fault; cbn -[to_key]; rw_hyps; cbn; auto.
+  all: brk; subst P; unfold fault_post; cbn; auto.
 Qed.
 
 (* ---- 2. at most one transaction, no nil dereference, no call on a finished transaction ------ *)
@@ -220,20 +219,19 @@ Proof.
   rewrite Hm. cbn [orb andb]. apply IH. unfold mon_step. cbn [fst m_hit]. unfold hit_now. rewrite Hm. reflexivity.
 Qed.
 
-Theorem fault_guarded_all c : forall ops st m,
-  c13_fault_guarded (mon_run c m ops (pg_trace c st ops)) = true.
+Theorem fault_all c : forall ops st m,
+  c13_fault (mon_run c m ops (pg_trace c st ops)) = true.
 Proof.
-  unfold c13_fault_guarded.
+  unfold c13_fault.
   induction ops as [|o ops IH]; intros st m; [reflexivity|].
   rewrite pg_trace_cons, mon_run_cons. cbn [forallb]. rewrite IH, andb_true_r.
-  unfold mon_step. cbn [snd k_trf k_fault]. unfold obs_of, fault_check. cbn [o_evs o_res].
+  unfold mon_step. cbn [snd k_fault]. unfold obs_of, fault_check. cbn [o_evs o_res].
   pose proof (step_fault_reported c st o) as H. unfold fault_post in H.
-  destruct H as [->|[H|[H|H]]].
-  - apply orb_true_r.
-  - rewrite H. reflexivity.
-  - rewrite H. destruct o; apply orb_true_r.
-  - rewrite H. destruct o; try apply orb_true_r.
-    all: match goal with |- context [if ?b then _ else _] => destruct b end; apply orb_true_r.
+  destruct H as [->|[H|H]].
+  - reflexivity.
+  - rewrite H. destruct o; reflexivity.
+  - rewrite H. destruct o; try reflexivity.
+    all: match goal with |- context [if ?b then _ else _] => destruct b end; reflexivity.
 Qed.
 
 Lemma guarded_all c : forall ops st m,
@@ -268,8 +266,8 @@ Proof.
   intros k H. cbn beta in H. destruct (k_hit k); [reflexivity|]. cbn in *. apply andb_true_iff in H. apply H.
 Qed.
 
-Theorem fault_guarded_run c init ops orc : c13_fault_guarded (pg_checks c init ops orc) = true.
-Proof. apply fault_guarded_all. Qed.
+Theorem fault_run c init ops orc : c13_fault (pg_checks c init ops orc) = true.
+Proof. apply fault_all. Qed.
 
 (* unconditional: whatever the history (sticky or not) *)
 Definition sane_obs (ob : pobs) : bool :=
@@ -429,16 +427,15 @@ Lemma refuted_stickymulti_lemma :
     /\ map o_res (pg_run c init ops orc) = [POk; POk; POk; PErr ENotFound; PErr ENotFound].
 Proof. exists wit_user, [], wit_sticky, []. vm_compute. repeat split. Qed.
 
-(* one fault (the 6th driver call = the row fetch on the translated key): Get returns the
-   default-language row "D" although "T" was acknowledged for the language, and no error *)
-Lemma refuted_trfetch_lemma :
-  exists c init ops orc,
-    trf_hit (pg_checks c init ops orc) = true
-    /\ sticky_hit (pg_checks c init ops orc) = false
-    /\ forallb k_fault (pg_checks c init ops orc) = false
-    /\ map o_res (pg_run c init ops orc) = [POk; PVal (s2b "D"); PVal (s2b "T")].
-Proof.
-  exists wit_trans, [(4 :: s2b "a", s2b "D")], [PPut (s2b "a") (s2b "T"); PGet (s2b "a"); PGet (s2b "a")],
-         [false; false; false; false; false; true].
-  vm_compute. repeat split.
-Qed.
+(* regression (repaired by 8748493; was finding K-C13-trfetch): one fault, the 6th driver call = the
+   row fetch on the translated key. Get used to fall through to the default-language row "D" and
+   return it without an error; now the fault is reported and the next Get returns "T" *)
+Lemma trfetch_reported_lemma :
+  let c := wit_trans in
+  let init := [(4 :: s2b "a", s2b "D")] in
+  let ops := [PPut (s2b "a") (s2b "T"); PGet (s2b "a"); PGet (s2b "a")] in
+  let orc := [false; false; false; false; false; true] in
+  c13_full (pg_checks c init ops orc) = true
+  /\ map o_res (pg_run c init ops orc) = [POk; PErr EFault; PVal (s2b "T")]
+  /\ map o_open (pg_run c init ops orc) = [0; 0; 0].
+Proof. vm_compute. repeat split. Qed.
